@@ -4,6 +4,7 @@ import (
 	"bufio"
 	"context"
 	"encoding/json"
+	"errors"
 	"flag"
 	"fmt"
 	"os"
@@ -21,6 +22,7 @@ import (
 	gsmsg "github.com/ipfs/go-graphsync/message"
 	"github.com/ipld/go-ipld-prime"
 	cidlink "github.com/ipld/go-ipld-prime/linking/cid"
+	"github.com/ipld/go-ipld-prime/traversal"
 	"github.com/libp2p/go-libp2p/core/peer"
 
 	"verifharness/dagreal"
@@ -45,7 +47,9 @@ type exCase struct {
 	DedupKey   string `json:"dedupKey,omitempty"`
 	ReqBudget  int    `json:"reqBudget,omitempty"`  // MaxLinksPerOutgoingRequests (0 = unset)
 	RespBudget int    `json:"respBudget,omitempty"` // MaxLinksPerIncomingRequests
-	Mode       string `json:"mode,omitempty"`       // "" = real requestor + real responder; "rawreq" = raw requestor, real responder
+	Budget     int    `json:"budget,omitempty"`
+	Where      string `json:"where,omitempty"` // reqG reqH reqGH reqHG respG respH respGH respHG
+	Mode       string `json:"mode,omitempty"`  // "" = real requestor + real responder; "rawreq" = raw requestor, real responder
 }
 
 type wireItem struct {
@@ -58,6 +62,7 @@ type exObs struct {
 	Delivered  []int      `json:"delivered"` // visits whose block was loaded, in order of first delivery
 	Missing    []int      `json:"missing"`   // visits reported by RemoteMissingBlockErr
 	OtherErrs  []string   `json:"otherErrs"`
+	BudgetErr  bool       `json:"budgetErr"`
 	Store      []int      `json:"store"`   // labels in the requestor store afterwards
 	NodesOK    bool       `json:"nodesOK"` // delivered node paths = reference node sequence restricted to delivered blocks
 	NNodes     int        `json:"nNodes"`
@@ -184,8 +189,42 @@ func runExCase(c exCase, timeout time.Duration) (obs exObs, err error) {
 	if c.RespBudget > 0 {
 		optsS = append(optsS, gsimpl.MaxLinksPerIncomingRequests(uint64(c.RespBudget)))
 	}
+	var hookR, hookS uint64
+	if c.Budget > 0 {
+		b := uint64(c.Budget)
+		switch c.Where {
+		case "reqG":
+			optsR = append(optsR, gsimpl.MaxLinksPerOutgoingRequests(b))
+		case "reqH":
+			hookR = b
+		case "reqGH": // the hook value is the smaller one
+			optsR = append(optsR, gsimpl.MaxLinksPerOutgoingRequests(b+1))
+			hookR = b
+		case "reqHG": // the global value is the smaller one
+			optsR = append(optsR, gsimpl.MaxLinksPerOutgoingRequests(b))
+			hookR = b + 1
+		case "respG":
+			optsS = append(optsS, gsimpl.MaxLinksPerIncomingRequests(b))
+		case "respH":
+			hookS = b
+		case "respGH":
+			optsS = append(optsS, gsimpl.MaxLinksPerIncomingRequests(b+1))
+			hookS = b
+		case "respHG":
+			optsS = append(optsS, gsimpl.MaxLinksPerIncomingRequests(b))
+			hookS = b + 1
+		default:
+			return obs, fmt.Errorf("unknown budget placement %q", c.Where)
+		}
+	}
 	gsR := gsimpl.New(ctx, epR, stR.LinkSystem(), optsR...)
-	_ = gsimpl.New(ctx, epS, stS.LinkSystem(), optsS...)
+	gsS := gsimpl.New(ctx, epS, stS.LinkSystem(), optsS...)
+	if hookR > 0 {
+		gsR.RegisterOutgoingRequestHook(func(p peer.ID, r graphsync.RequestData, ha graphsync.OutgoingRequestHookActions) { ha.MaxLinks(hookR) })
+	}
+	if hookS > 0 {
+		gsS.RegisterIncomingRequestHook(func(p peer.ID, r graphsync.RequestData, ha graphsync.IncomingRequestHookActions) { ha.MaxLinks(hookS) })
+	}
 	var exts []graphsync.ExtensionData
 	if c.UserSkip > 0 {
 		exts = append(exts, graphsync.ExtensionData{Name: graphsync.ExtensionsDoNotSendFirstBlocks, Data: donotsendfirstblocks.EncodeDoNotSendFirstBlocks(int64(c.UserSkip))})
@@ -241,6 +280,11 @@ func runExCase(c exCase, timeout time.Duration) (obs exObs, err error) {
 					}
 					continue
 				}
+			}
+			var be *traversal.ErrBudgetExceeded
+			if errors.As(e, &be) {
+				obs.BudgetErr = true
+				continue
 			}
 			obs.OtherErrs = append(obs.OtherErrs, fmt.Sprintf("%T: %v", e, e))
 		case <-deadline:
